@@ -52,6 +52,10 @@ claimed = {
    text="Bounded exhaustive model checking: $string/$number round trip on all decimals m x 10^e (|m|<=999, thorough 9999; e in -12..21), powers of two 2^-60..2^70, specials, each with both neighbouring doubles (shortest-digits and read-back check); $number on ALL strings of length <=5 (thorough: 6) over a 10-character number-like alphabet against a reference recogniser + strconv; $round on k x 10^-d (|k|<=300, thorough 2000; d in -4..4, i.e. every exact tie at every digit position) and both neighbours x precisions -6..12 against exact big.Rat half-even rounding of the shortest decimal; floor/ceil/abs/sqrt/power grids; $formatBase over integers, halves, 2^53 and 2^63 edges x 20 bases incl. fractional and out-of-range; $formatNumber on 12 integer parts x 7 fraction parts x 5 modes x 4 affixes x 3 second sub-pictures x 22 values, each with 0, 1 (thorough: 2) decimal-format option deviations, checked by a read-back checker (prefix/suffix, minus or negative sub-picture, grouping separator positions regular and irregular, mandatory digits, value = x rounded to the picture's fraction digits, percent/per-mille scaling, mantissa x 10^exponent); and every single-edit mutation (delete/duplicate/insert over 10 symbols) of 630 pictures against a reference validity predicate for the decimal-format grammar. Every case runs under the CPU watchdog (termination).",
    note="Trusted: strconv and math/big as exact oracles; the read-back checker and validity predicate in mc/props/c18fmt.go (written from the statement / XPath 3.1 rules). Ties in $formatNumber may round either way ('rounded'); 'reads back' is compared at double precision. Doubles outside the grids, pictures with more than one edit and longer strings are not covered.",
    technique="explicit enumeration of number grids, strings and pictures (stateless DFS) vs exact big-rational oracles and a read-back checker", design="§5 C18", engine=E1),
+ "C19": dict(
+   text="Bounded exhaustive model checking on the finite day line: every day of 18 boundary years and of every 11th year 1000..9999 (thorough: EVERY day 1000-01-01..9999-12-31, 3.29M days) x 3 times of day x 3 offsets, rendered through a 30-component composite picture (numeric, zero-padded, ordinal, upper/lower/title names, 3-letter abbreviations, 12-hour clock, am/pm, ISO week, day of year, [Z]/[z] forms) and compared with an independent integer civil calendar (days-from-civil arithmetic, Thursday rule); 21 boundary days x 24 hours x 2 minutes x all 113 quarter-hour offsets -1400..+1400 incl. the default ISO 8601 picture; the inverse law $toMillis($fromMillis(ms, pic, tz)) = ms through the default picture and four explicit pictures on the same days; all strings of <=4 (thorough: 5) units over malformed picture and offset alphabets; unparseable texts; and the one-clock relation ($millis/$now equal within one Eval, bracketed by the caller's clock) on 300 (thorough: 2000) evaluations in 3 forms.",
+   note="Trusted: the 40-line civil-calendar arithmetic in mc/props/c19.go (self-checked against Go's time package at start-up). [F1] numbering, [w] and the default width of [f] are not compared (statement silent). Times of day other than the three sampled (plus all hours on boundary days) are not covered. The clock bracket discards samples where wall and monotonic elapsed time disagree by more than 1 ms.",
+   technique="exhaustive sweep of the day line x offsets x pictures (stateless DFS) vs independent civil-calendar arithmetic and inverse laws", design="§5 C19", engine=E1),
 }
 pending_reason = "check not built yet in this session (planned, see DESIGN.md §5)"
 
